@@ -113,6 +113,10 @@ impl Scenario for Forward {
             ReqBody::None
         };
         let mut req_headers = vec![("Accept".to_string(), "*/*".to_string())];
+        if rng.chance(1, 3) {
+            // a value with bytes above 0x7f (obs-text, RFC 7230 3.2.6): opaque, passed on as it is
+            req_headers.push(("Content-Disposition".into(), format!("attachment; filename=\"r\u{e9}sum\u{e9}-{}.pdf\"", rng.below(100))));
+        }
         if rng.chance(1, 2) {
             req_headers.push(("X-Custom".into(), format!("v{}", rng.below(1000))));
         }
@@ -547,7 +551,7 @@ async fn h2_client(plan: FPlan, authority: String, peer: PeerConn, obs: Shared<O
         .uri(format!("http://{}{}", authority, plan.path))
         .header("proxy-authorization", basic_auth("u0", "p0-secret-password"));
     for (k, v) in &plan.req_headers {
-        b = b.header(k.as_str(), v.as_str());
+        b = b.header(k.as_str(), v.as_bytes());
     }
     let body = req_body_bytes(&plan);
     if let ReqBody::Sized(n) = plan.req_body {
